@@ -3,5 +3,8 @@
 TimeoutQC::high_qc returns. The rule that pins it (maximum by view over the votes' high_qc) belongs to C02 and is run with C05
 as well (seed S9C05: high_qc takes the last entry of the map, which is ordered by the whole vote, not by the certificate's view)."""
 from .c02 import rule_high_qc
+# the certificate handed over must itself have been verified: every vote of a timeout certificate is verified in full, nested
+# certificates included (C04.2 / C04.5; seeds S10C05 / S10C07: the high certificate of a later vote is skipped when "the same" one was seen)
+from .c04 import rule_timeout_qc_verify, rule_must_verify
 
-RULES = [("C02.3", rule_high_qc)]
+RULES = [("C02.3", rule_high_qc), ("C04.2", rule_timeout_qc_verify), ("C04.5", rule_must_verify)]
